@@ -38,6 +38,9 @@ func (p *Program) inSweep(f *ssa.Function) bool {
 		// (function literals of package-level initialisers run in the evaluation phase: swept)
 		return false
 	}
+	if f.Parent() != nil && p.fileOf(f) == "build.go" {
+		return true // function literals of the builder end up in query fields and run during evaluation
+	}
 	return evalPhaseFiles[p.fileOf(f)]
 }
 
